@@ -38,6 +38,21 @@ def runs(tier):
         ("twochan", {"h0": 10, "fh": "set", "prewin": 1, "trusted": ["o1", "o2", "o3"], "deep": False,
                      "nl": 2, "hmin": 10, "hmax": 12 + ext}, 1),
     ]
+    # ---- deep-reorg mode (allow_deep_reorgs, the testnet default) x remembered-header window
+    # nothing remembered (started from a checkpoint): every removal goes below the window; the tip is
+    # the retarget block 2016, three more blocks are known to the node below it
+    rs.append(("deepempty", {"h0": 2016, "fh": "set", "prewin": 0, "below": 2, "trusted": ["o1", "o2"], "deep": True,
+                             "nl": 1, "hmin": 2014, "hmax": 2017 + ext}, md))
+    # short window: used up by the first removal, the following ones go below it
+    rs.append(("deepshort", {"h0": 10, "fh": "set", "prewin": 1, "below": 1, "trusted": ["o1", "o2", "o3"],
+                             "deep": True, "nl": 1, "hmin": 8, "hmax": 11 + ext}, md))
+    if not quick:
+        # full window with the flag set (the flag must not matter while headers are remembered)
+        rs.append(("deepfull", {"h0": 4031, "fh": "set", "prewin": 100, "below": 1, "trusted": ["o1", "o2", "o3"],
+                                "deep": True, "nl": 1, "hmin": 4030, "hmax": 4033}, 1))
+        # two channels, tip recorded without a filter header, nothing remembered
+        rs.append(("deepnofilter", {"h0": 6, "fh": "zero", "prewin": 0, "below": 2, "trusted": ["o1"], "deep": True,
+                                    "nl": 2, "hmin": 4, "hmax": 8}, 1))
     if not quick:
         # no trusted oracle configured (any attestation is enough), window of two headers
         rs.append(("untrusted", {"h0": 2015, "fh": "set", "prewin": 2, "trusted": [], "deep": False, "nl": 2,
@@ -72,10 +87,17 @@ def _violations_from_report(ex, rep):
             for j in idxs:
                 yield (i,) + tuple(rows[i]["p"][j - 1])
 
-    for node, _to, ri, ok, err, chg in edges(rep["move_bad"]):
-        d = {"req": reqs[ri - 1], "ok": ok, "err": err, "chg": chg}
-        consider(trk.key_move(d), node, [d["req"]],
-                 "C13a: the tip moved by a request the reference predicate rejects: %s" % json.dumps(d["req"], sort_keys=True))
+    post_bad = {(i, j) for i, idxs in enumerate(rep["post_bad"]) for j in idxs}
+    for i, idxs in enumerate(rep["move_bad"]):
+        for j in idxs:
+            _to, ri, ok, err, chg = rows[i]["e"][j - 1]
+            node = i
+            d = {"req": reqs[ri - 1], "ok": ok, "err": err, "chg": chg, "post_bad": (i, j) in post_bad}
+            consider(trk.key_move(d), node, [d["req"]],
+                     ("C13a: an allowed %s was accepted but tip / height / remembered headers afterwards are not those "
+                      "of the %s block: %s" % (d["req"]["op"], "previous" if d["req"]["op"] == "rm" else "new",
+                                               json.dumps(d["req"], sort_keys=True))) if d["post_bad"] else
+                     "C13a: the tip moved by a request the reference predicate rejects: %s" % json.dumps(d["req"], sort_keys=True))
     for node, _to, ri, ok, err, chg in edges(rep["frame_bad"]):
         d = {"req": reqs[ri - 1], "ok": ok, "err": err, "chg": chg}
         consider(trk.key_frame(d), node, [d["req"]],
@@ -97,7 +119,8 @@ def _violations_from_trace(cfg, steps_file, rep):
         return [x["req"] for x in steps if x["seq"] == e["seq"] and x["step"] <= e["step"]]
 
     for d in rep["move_bad"]:
-        out.append({"key": trk.key_move({"req": d["req"], "ok": d["resp"][0]}), "what": "C13a on a replayed behaviour",
+        out.append({"key": trk.key_move({"req": d["req"], "ok": d["resp"][0], "post_bad": d["line"] in rep["post_bad"]}),
+                    "what": "C13a on a replayed behaviour",
                     "replay": {"kind": "tracker-seq", "cfg": cfg, "requests": seq_upto(d)}})
     for d in rep["frame_bad"]:
         out.append({"key": trk.key_frame({"req": d["req"], "chg": d["resp"][2]}), "what": "C13b on a replayed behaviour",
@@ -140,6 +163,16 @@ def run(pid, tier):
     cov["legs"]["A_model_atomic_switches"] = {"states": a_fix["states"], "distinct": a_fix["distinct"],
                                               "depth": a_fix["depth"], "violated": a_fix["violated"],
                                               "wall_s": round(a_fix["wall_s"], 1)}
+    # deep-reorg mode in the model: allow_deep_reorgs set, the tracker may start with nothing remembered,
+    # removals go below the remembered headers
+    cd = dict(consts, deep=True, hmax=4 if quick else 5, maxdev=1)
+    a_deep = trk.leg_a("atomic-deep", cd, INVS + ["TypeOK", "WindowLinked"], False, False)
+    cov["legs"]["A_model_atomic_switches_deep_reorgs"] = {
+        "constants": cd, "states": a_deep["states"], "distinct": a_deep["distinct"], "depth": a_deep["depth"],
+        "violated": a_deep["violated"], "wall_s": round(a_deep["wall_s"], 1)}
+    if a_deep["violated"]:
+        log("[C13] leg A: the model with atomic switches and deep reorgs violates %s: the specification itself is wrong"
+            % a_deep["violated"])
     if not quick:
         c2 = dict(consts, nl=2, maxdev=1, hmax=5, trusted=["o1", "o2", "o3"])
         a2 = trk.leg_a("atomic-2ch", c2, INVS + ["TypeOK", "WindowLinked"], False, False)
@@ -175,10 +208,14 @@ def run(pid, tier):
             "product_states": r["distinct"], "product_transitions": r["states"],
             "state_budget_exhausted": bool(ex["stats"].get("capped")),
             "spec_divergences": ndiv, "move_bad": sum(map(len, rep["move_bad"])),
+            "removals_below_window_accepted": rep["deep_retreats"],
+            "removals_below_window_accepted_on_supplied_zero_filter_header": rep["deep_retreats_unproved"],
             "frame_bad": sum(map(len, rep["frame_bad"])), "later_bad": sum(map(len, rep["later_bad"])), "invariants_violated": sorted(set(ri["violated"])),
             "wall_s": round(ex["wall_s"] + ri["wall_s"], 1)}
         if rep["accepted"] == 0 or rep["refused"] == 0 or rep["probes"] == 0:
             raise vlib.ToolError("vacuous exploration in run %s" % name)
+        if cfg.get("deep") and cfg["prewin"] <= 1 and rep["deep_retreats"] == 0:
+            raise vlib.ToolError("run %s: no removal below the remembered headers was accepted (vacuous)" % name)
         tot_states += r["distinct"]
         tot_trans += r["states"]
         tot_obs += rep["edges"] + rep["probes"]
@@ -196,15 +233,18 @@ def run(pid, tier):
     # ---- leg C: model behaviours replayed on long-lived trackers, validated by TLC
     nsim, depth = (30, 14) if quick else (300, 24)
     simcfgs = [{"interval": trk.INTERVAL, "maxreorg": 100, "trusted": ["o1", "o2"], "nl": 1, "h0": 2014, "prewin": 1,
-                "fh": "set", "maxdev": 1}]
+                "fh": "set", "maxdev": 1},
+               # deep-reorg mode on a long-lived tracker: one remembered header, three more below it
+               {"interval": trk.INTERVAL, "maxreorg": 100, "trusted": ["o1", "o2"], "nl": 1, "h0": 2017, "prewin": 1,
+                "below": 2, "deep": True, "fh": "set", "maxdev": 1}]
     if not quick:
         simcfgs.append({"interval": trk.INTERVAL, "maxreorg": 100, "trusted": ["o1", "o2", "o3"], "nl": 2, "h0": 2012,
                         "prewin": 3, "fh": "zero", "maxdev": 1})
     for i, sc in enumerate(simcfgs):
         d = vlib.workdir("tracker/c-%d" % i)
         seqs, sim = trk.simulate(sc, nsim, depth, vlib.seed(), d)
-        cfg = {"h0": sc["h0"], "fh": sc["fh"], "prewin": sc["prewin"], "trusted": sc["trusted"], "deep": False,
-               "nl": sc["nl"], "hmin": 0, "hmax": 1 << 30}
+        cfg = {"h0": sc["h0"], "fh": sc["fh"], "prewin": sc["prewin"], "below": sc.get("below", 0),
+               "trusted": sc["trusted"], "deep": bool(sc.get("deep")), "nl": sc["nl"], "hmin": 0, "hmax": 1 << 30}
         steps_file, cfgf, st = trk.run_sequences(binpath, cfg, seqs, d)
         tr = trk.trace_tlc(steps_file, cfgf, st.get("max_reorg", 100), [])
         tri = trk.trace_tlc(steps_file, cfgf, st.get("max_reorg", 100), INVS, tag="-inv")
@@ -250,8 +290,12 @@ def run(pid, tier):
                              1 if quick else 2),
                          "listeners are real ChainMonitors with a dummy commitment point provider: block contents are "
                          "limited to funding / funding-input double spends (closing transactions belong to C14)",
-                         "allow_deep_reorgs (testnet escape hatch) is off; a panic of the code under test is recorded "
-                         "as data, not as a refusal",
+                         "allow_deep_reorgs (testnet default) is explored off and on, with nothing / one header / a full "
+                         "window remembered; in deep-reorg mode (nothing remembered) the reference takes the supplied "
+                         "previous headers as the record of the previous block, as the flag's contract says: a removal "
+                         "on a supplied all-zero filter header is accepted without a proof check (counted per run as "
+                         "removals_below_window_accepted_on_supplied_zero_filter_header)",
+                         "a panic of the code under test is recorded as data, not as a refusal",
                          "TLC and the Json/IOUtils community modules"],
                         time.time() - t0, unknown + known)
     return code
